@@ -165,13 +165,18 @@ func buildStructCacheEntry(t reflect.Type, infos map[string]*FieldCacheEntry, fi
 				e = field.Type.Elem()
 			}
 			if e.Kind() == reflect.Struct {
-				buildStructCacheEntry(e, infos, append(fieldPath, field.Index))
+				buildStructCacheEntry(e, infos, appendFieldIndex(fieldPath, field.Index))
 			}
 			continue
 		}
-		info := &FieldCacheEntry{JsonName: jsonName, isOmitEmpty: isOmitempty, omitzero: omitzero, fieldPath: append(fieldPath, field.Index), fieldType: field.Type}
+		info := &FieldCacheEntry{JsonName: jsonName, isOmitEmpty: isOmitempty, omitzero: omitzero, fieldPath: appendFieldIndex(fieldPath, field.Index), fieldType: field.Type}
 		infos[jsonName] = info
 	}
+}
+
+// appendFieldIndex returns a new path: sibling fields must not share the backing array of fieldPath.
+func appendFieldIndex(fieldPath [][]int, index []int) [][]int {
+	return append(fieldPath[:len(fieldPath):len(fieldPath)], index)
 }
 
 // Fields returns a map of JSON field name to FieldCacheEntry for structs, or nil for non-structs.
